@@ -221,7 +221,13 @@ class OrderTyper:
                     and all(isinstance(x, ast.Name) for x in loop.target.elts):
                 i, e = loop.target.elts[0].id, loop.target.elts[1].id
                 v = st.value
-                if e in U.names_in(tg.slice) and isinstance(v, ast.Subscript) and isinstance(v.slice, ast.Name) and v.slice.id == i:
+                # the key may be built from the element through locals of the iteration (key = v.MU(e); target[key] = ..)
+                keynames = set(U.names_in(tg.slice))
+                for _ in range(4):
+                    for b in ast.walk(loop):
+                        if isinstance(b, ast.Assign) and len(b.targets) == 1 and isinstance(b.targets[0], ast.Name) and b.targets[0].id in keynames:
+                            keynames |= U.names_in(b.value)
+                if e in keynames and isinstance(v, ast.Subscript) and isinstance(v.slice, ast.Name) and v.slice.id == i:
                     return True
         return False
 
@@ -303,6 +309,11 @@ def r111(repo, ctx):
                         elif isinstance(b, ast.Attribute) and U.chain(b) and U.chain(b)[-1] == 'elements':
                             sorts[anon] = (st, ast.Subscript(value=b, slice=ast.Slice(lower=None, upper=None, step=None), ctx=ast.Load()))
                             unsorts[st.targets[0].id] = (st, anon)
+            # a helper whose result is the unsort index: return np.argsort(<sort name>)
+            for st in U.walk_no_nested(f):
+                if isinstance(st, ast.Return) and isinstance(st.value, ast.Call) and U.call_name(st.value) == 'np.argsort' and st.value.args and isinstance(st.value.args[0], ast.Name) \
+                        and st.value.args[0].id in sorts:
+                    unsorts['<returned>'] = (st, st.value.args[0].id)
             params_u = {p for p in U.params(f) if p == 'unsortIndices'}
             if not sorts and not params_u:
                 continue
